@@ -402,14 +402,9 @@ def _comment_safe(text):
 	return text.replace('"', "''").replace('(*', '( *').replace('*)', '* )')
 
 
-def read_deps_config(repo=None):
-	"""Independent reader of deps.config following DepsChecker.parse: (rule lines, defines, unparseable lines)."""
-	repo = repo or REPO
+def parse_deps_text(text):
+	"""Independent reader of a deps.config text following DepsChecker.parse: (rule lines, defines, unparseable lines)."""
 	lines, defines, bad = [], [], []
-	try:
-		text = (repo / DEPSCONFIG).read_text(encoding='utf8')
-	except OSError as ex:
-		return lines, defines, [f'unreadable: {ex}']
 	for raw in text.split('\n'):
 		line = re.sub(r'#.*', '', raw.strip()).strip()
 		if not line:
@@ -427,6 +422,15 @@ def read_deps_config(repo=None):
 		if len(rule) != 2 and len(define) != 2:
 			bad.append(line)
 	return lines, defines, bad
+
+
+def read_deps_config(repo=None):
+	repo = repo or REPO
+	try:
+		text = (repo / DEPSCONFIG).read_text(encoding='utf8')
+	except OSError as ex:
+		return [], [], [f'unreadable: {ex}']
+	return parse_deps_text(text)
 
 
 def deps_text():
@@ -475,7 +479,7 @@ class LintGen(GenModule):
 			shapes.report[f'{VALIDATION}::{item["where"]}'] = f'not-translatable ({item["reason"]}): {item["pattern"]}'
 		return text + tables_text(tables), unrecognised
 
-	def extra_disabled(self, shapes):
+	def extra(self, shapes):
 		"""Gen/LintDeps.v: the dependency configuration as data."""
 		try:
 			text, bad, untranslatable = deps_text()
@@ -522,6 +526,18 @@ LINT = (
 	.anchor(CHECKPS, 'ConReporter.suite', {1: ('total_acc_op', 'op')})
 	.anchor(CHECKPS, 'ConReporter.__init__', {0: ('total_initial', 'Z')})
 	.anchor(CHECKPS, 'FilteredReporter.__call__', {})
+	.anchor(CHECKPS, 'check_dependencies', {})
+	.anchor(CHECKPS, 'deps_check_dir', {})
+	.anchor(DEPSCHECKER, 'DepsChecker.parse', {})
+	.anchor(DEPSCHECKER, 'DepsChecker.expand_define', {0: ('define_level_start', 'Z'), 1: ('define_level_op', 'op'), 2: ('define_level_limit', 'Z')})
+	.anchor(DEPSCHECKER, 'DepsChecker.process_defines', {})
+	.anchor(DEPSCHECKER, 'DepsChecker.is_self_contained', {})
+	.anchor(DEPSCHECKER, 'DepsChecker.add_rule', {})
+	.anchor(DEPSCHECKER, 'DepsChecker.add_rules', {})
+	.anchor(DEPSCHECKER, 'DepsChecker.create_rule', {})
+	.anchor(DEPSCHECKER, 'DepsChecker.process_rules', {})
+	.anchor(DEPSCHECKER, 'DepsChecker.create_rules', {})
+	.anchor(DEPSCHECKER, 'DepsChecker.match', {})
 	.anchor(CHECKPS, 'Analyzer.print_formatting_out', {})
 )
 
